@@ -277,6 +277,9 @@ fn judge(rep: &Reporter, c: &Case, client: &Side, peer: &Side, lag_ms: u64) {
     match c.close {
         0 => {
             // the client ended its direction after sending everything: the destination must have seen all of it before the end
+            // (on HTTP/1.1 the client's end-of-stream ends the whole session - known finding - and what the endpoint had accepted but
+            // not yet delivered to a slow destination is discarded with it: its own signature, so that the same symptom on HTTP/2 stays an alarm)
+            if !up_complete && !c.h2 { rep.violation("l2: HTTP/1.1 tunnel: upload cut short after the client half-closed its direction", w("upload truncated: bytes accepted from the client were discarded when its end-of-stream ended the session")); return; }
             if !up_complete { rep.violation("l2: end of the client's stream reached the destination before all preceding bytes", w("upload truncated")); return; }
             if !peer.eof { rep.violation("l2: end of the client's stream not passed on to the destination", w("no end-of-stream at the destination")); return; }
             if !down_complete { rep.violation(&format!("l2: HTTP/{} tunnel: download cut short after the client half-closed its direction", if c.h2 { "2" } else { "1.1" }), w("download truncated after the client's end-of-stream")); return; }
